@@ -6,6 +6,7 @@ import (
 
 	"github.com/tobgu/qframe"
 	"github.com/tobgu/qframe/config/eval"
+	"github.com/tobgu/qframe/types"
 
 	"verif/harness/core"
 	"verif/harness/model"
@@ -55,7 +56,13 @@ func c07Env_() *c07Env {
 			e.obs = append(e.obs, o)
 		}
 		// degenerate variants (shape numbers NShapes..): zero rows, one row, one row left of a sorted frame
-		for _, q := range []qframe.QFrame{model.Build(base.Rows(nil)), model.Build(base.Rows([]int{2})), model.Build(base).Sort(qframe.Order{Column: "i"}).Slice(3, 4)} {
+		// ... a frame whose columns all moved one position down (an earlier column was dropped), and a
+		// frame that already went through an Eval needing temporaries (its result column "ev0" exists)
+		withFirst := base.Clone()
+		withFirst.Cols = append([]model.Col{{Name: "aaa", Kind: model.Int, Cells: []model.Cell{model.I(9), model.I(9), model.I(9), model.I(9)}}}, withFirst.Cols...)
+		for _, q := range []qframe.QFrame{model.Build(base.Rows(nil)), model.Build(base.Rows([]int{2})), model.Build(base).Sort(qframe.Order{Column: "i"}).Slice(3, 4),
+			model.Build(withFirst).Drop("aaa"),
+			model.Build(base).Eval("ev0", qframe.Expr("+", qframe.Expr("abs", types.ColumnName("i")), 1))} {
 			o := model.Observe(q)
 			o.AdoptMeta(base)
 			e.real = append(e.real, q)
@@ -70,7 +77,7 @@ func c07ShapeName(s int) string {
 	if s < model.NShapes {
 		return model.ShapeNames[s]
 	}
-	return []string{"zero-rows", "one-row", "one-row-of-a-sorted-frame"}[s-model.NShapes]
+	return []string{"zero-rows", "one-row", "one-row-of-a-sorted-frame", "first-column-dropped", "after-an-eval"}[s-model.NShapes]
 }
 
 func runEvalCase(c evalCase) *core.Failure {
@@ -239,7 +246,7 @@ func c07Run(ctx *core.Ctx) {
 			ctx.Sample(map[string]interface{}{"dst": c.Dst, "expr": c.Expr.String(), "style": c.Style, "user_ctx": c.User, "shape": c07ShapeName(c.Shape)})
 		}
 	}
-	dsts := []string{"new", "i", "s", "e"}
+	dsts := []string{"new", "i", "s", "e", "ev0"}
 	runAll := func(exprs []model.Expr, label string, allVariants bool) {
 		for _, e := range exprs {
 			for di, dst := range dsts {
@@ -251,7 +258,7 @@ func c07Run(ctx *core.Ctx) {
 						if !ctx.Mine() {
 							continue
 						}
-						shape := int(ctx.Index() % int64(model.NShapes+3))
+						shape := int(ctx.Index() % int64(model.NShapes+5))
 						exec(evalCase{Shape: shape, Dst: dst, Expr: e, Style: style, User: user})
 					}
 				}
